@@ -125,6 +125,14 @@ theorem divFloor_builtin (a b : LB) (ha : a.wf) (hb : b.wf) (h0 : b.den ≠ 0) :
   refine ⟨r, ?_, hw, hd⟩
   unfold IntB.divFloor; rw [(isZero_false_iff b hb).mpr h0, hr]; rfl
 
+/-- builtin `div_ceil` with a nonzero divisor: a value, canonical, the ceiling quotient -/
+theorem divCeil_builtin (a b : LB) (ha : a.wf) (hb : b.wf) (h0 : b.den ≠ 0) :
+    ∃ r, IntB.divCeil a b = .int r ∧ r.wf ∧
+      ∃ m, a.den = r.den * b.den - m ∧ (0 < b.den → 0 ≤ m ∧ m < b.den) ∧ (b.den < 0 → b.den < m ∧ m ≤ 0) := by
+  obtain ⟨q, ⟨r, hr, hw, hd⟩, hq⟩ := divCeil_correct a b ha hb h0
+  refine ⟨r, ?_, hw, by rw [hd]; exact hq⟩
+  unfold IntB.divCeil; rw [(isZero_false_iff b hb).mpr h0, hr]; rfl
+
 /-- the model's fast exponentiation is exponentiation -/
 theorem ipow_eq (b : Int) (e : Nat) : LB.ipow b e = b ^ e :=
   Ops.ipow_eq b e
